@@ -163,6 +163,15 @@ def match_tlv_head(c, rope):
     return tclass, constructed, num, pos, a.term.arg(0)
 
 
+# summaries of the readers on arbitrary (opaque) bytes, registered by c_untrusted (C05) where they are verified
+OPAQUE_SUMMARY = {}
+
+
+def opaque(rope):
+    """the bytes are not one of the structured spec ropes: nothing is known about their head"""
+    return bool(rope.segs) and isinstance(rope.segs[0], R.Atom) and not (z3.is_app(rope.segs[0].term) and rope.segs[0].term.decl().name() in ("DERLEN", "OIDCONTENT"))
+
+
 @REG.contract("dpapi_ng._asn1._read_asn1_header", props=["C07", "C06", "C05"])
 def read_asn1_header(c):
     I = c.I
@@ -188,6 +197,8 @@ def read_asn1_header(c):
         data = c.param("data")
         m = match_tlv_head(c, I.rope_of(data))
         if m is None:
+            if opaque(I.rope_of(data)):
+                return OPAQUE_SUMMARY["header"](c, data)
             c.inline_instead()
         tclass, constructed, num, ident_len, n = m
         if tclass == 0 and num not in TYPE_TAG_MEMBERS:
@@ -270,6 +281,9 @@ def pack_asn1_integer(c):
 @REG.contract("dpapi_ng._asn1._read_asn1_integer", props=["C07"])
 def read_asn1_integer(c):
     if not c.verifying:
+        data = c.param("data")
+        if c.param("tag") is None and c.param("header") is None and opaque(c.I.rope_of(data)):
+            return OPAQUE_SUMMARY["integer"](c, data)
         c.inline_instead()
     v = c.fresh(T.Int, "value")
     tag = some_tag(c)
@@ -475,6 +489,8 @@ def read_oid(c):
         # inverse of the summary above: TLV(06, OIDCONTENT(text)) reads back as text
         data = c.param("data")
         segs = c.I.rope_of(data).segs
+        if c.param("tag") is None and c.param("header") is None and opaque(c.I.rope_of(data)):
+            return OPAQUE_SUMMARY["oid"](c, data)
         if c.param("tag") is not None or c.param("header") is not None or len(segs) < 3 or not (isinstance(segs[0], R.Lit) and segs[0].data == b"\x06") \
                 or not isinstance(segs[1], R.Atom) or not isinstance(segs[2], R.Atom):
             c.inline_instead()
